@@ -75,6 +75,44 @@ def mask_cases(s, nz, rule, con, loc, code, ref, d, t):
                  necessary_for="bootstraps through time-limit truncations and never through true terminations")
 
 
+def batch_rows(n, batch=("param", "batch")):
+    """Rewrite `X.shape[0]` to one symbol when X has the sampled batch as its leading axis (a field of the batch, a cast / element-wise
+    function of such, the result of a function vmapped over such, an argmax over the LAST axis of such): the row index
+    `arange(X.shape[0])` then reads the same whichever of those arrays the code takes the length from."""
+    from ..vgraph import mapnodes
+
+    def leads(x, depth=0):
+        if depth > 8 or not isinstance(x, tuple) or not x:
+            return False
+        if x[0] == "attr" and x[1] == batch:
+            return True
+        if x[0] == "cast":
+            return leads(x[2], depth + 1)
+        if x[0] == "item" and isinstance(x[1], tuple) and x[1] and x[1][0] == "call" and isinstance(x[1][1], tuple) and x[1][1] and x[1][1][0] == "vmapfn" \
+                and not x[1][1][2]:
+            return bool(x[1][2]) and all(leads(a, depth + 1) for a in x[1][2])
+        if x[0] == "call" and isinstance(x[1], tuple):
+            if x[1][0] == "attr" and x[1][2] in ("astype",):
+                return leads(x[1][1], depth + 1)
+            if x[1] in (("global", "jax.numpy.argmax"), ("global", "jax.numpy.argmin"), ("global", "jax.numpy.max"), ("global", "jax.numpy.min")):
+                kw = dict((k_, v) for k_, v in x[3] if k_)
+                return len(x[2]) == 1 and kw.get("axis") == ("const", -1) and leads(x[2][0], depth + 1)
+            if x[1] in (("global", "jax.numpy.asarray"), ("global", "jax.numpy.array")) and x[2]:
+                return leads(x[2][0], depth + 1)
+        if x[0] == "bin":
+            return leads(x[2], depth + 1) or leads(x[3], depth + 1)
+        return False
+
+    def f(n_):
+        if n_ and n_[0] == "item" and n_[2] == 0 and isinstance(n_[1], tuple) and n_[1] and n_[1][0] == "attr" and n_[1][2] == "shape" and leads(n_[1][1]):
+            return ("attr", batch, "<rows>")
+        if n_ and n_[0] == "call" and n_[1] == ("global", "len") and len(n_[2]) == 1 and not n_[3] and leads(n_[2][0]):
+            return ("attr", batch, "<rows>")
+        return n_
+
+    return mapnodes(n, f)
+
+
 def check(s):
     P = s.prog
     # ---------------------------------------------------------------- DQN
@@ -83,9 +121,10 @@ def check(s):
     con = "DQN.dqn_loss"
     loc = s.loc("DQN", "dqn_loss")
     p = one(s.paths(b, "DQN", "dqn_loss"), con)
-    loss = p.ret
+    loss = batch_rows(p.ret)
     bind = {k: ("param", k) for k in ("policy", "batch", "target_policy", "gamma")}
     env = s.refprog(b, DQN_REF, bind)
+    env = {k_: batch_rows(v) for k_, v in env.items()}
     s.eq("C07.1", con, nz, loss, env["loss"],
          "loss == mean((Q_online(s)[a] − (r + γ·Q_target(s′)[argmax_a Q_online(s′)]·NT))²)/2", loc, key="dqn-loss-formula",
          necessary_for="Double-DQN target r + γ(1−terminated)·Q_tgt(s′, argmax Q_online(s′)) compared with the online value of the action taken")
@@ -195,17 +234,31 @@ def check(s):
         argmap = {}
         ok_rows = True
         rows = []
-        for a in targets[2]:
+        # which arguments are mapped: all of them for a plain vmap; with in_axes=(None, ..., 0, ...) the None positions are broadcast
+        # (the per-sample function receives the argument itself), the others are rows
+        vkw = dict(targets[1][2])
+        axes = vkw.get("in_axes", vkw.get("#1"))
+        if isinstance(axes, tuple) and axes and axes[0] == "tuple" and len(axes[1]) == len(targets[2]):
+            mapped = [ax != NONE for ax in axes[1]]
+        else:
+            mapped = [True] * len(targets[2])
+        actual = []
+        for a, mp in zip(targets[2], mapped):
+            if not mp:
+                actual.append(a)
+                continue
             if isinstance(a, tuple) and a[0] == "attr" and a[2] in ("next_observations", "rewards", "dones", "timeouts"):
                 rows.append(a[2])
             else:
                 rows.append("key")
+            actual.append(None)
         s.ob("C07.2", con4 + tag, sorted(rows) == sorted(["next_observations", "rewards", "dones", "timeouts", "key"]),
              "the per-sample target function is mapped over (next_observations, rewards, dones, timeouts, fresh keys)", loc4,
              key="targets-rows", detail=str(rows))
         sym = {"next_observations": ("param", "$next_obs"), "rewards": ("param", "$reward"), "dones": ("param", "$done"),
                "timeouts": ("param", "$timeout"), "key": ("param", "$k")}
-        out = b4.apply(fn_t, tuple(sym[r] for r in rows), ())
+        it_rows = iter(rows)
+        out = b4.apply(fn_t, tuple(a if a is not None else sym[next(it_rows)] for a in actual), ())
         rbind = {"policy": ("param", "policy"), "next_obs": sym["next_observations"], "reward": sym["rewards"], "done": sym["dones"],
                  "timeout": sym["timeouts"], "k": sym["key"], "self": ("param", "self"), "qf1_target": ("param", "qf1_target"),
                  "qf2_target": ("param", "qf2_target"), "log_alpha": ("param", "log_alpha")}
@@ -293,6 +346,13 @@ def check(s):
             s.ob("C07.8", f"{ci_.name}.action_and_log_prob", ok_f,
                  "(action, log-prob) are elements 0 and 1 of ONE dist.sample_and_log_prob(key) call (no separate sample / log_prob round trip through the squashing)", locq,
                  key="fused-sample-logprob", detail=show(r_, maxlen=240), necessary_for="V' = min of the target critics at a freshly sampled next action minus alpha * log pi of THAT action")
+            if ok_f:
+                # log pi of a vector action is the JOINT log-density: the per-component values may only be summed (and squeezed), not averaged
+                nzq = Normalizer(bq)
+                Lb = {"L": ("item", fused[0], 1)}
+                okj = nzq.canon(r_[1][2]) in [nzq.canon(s.ref(bq, e_, Lb)) for e_ in ("L", "L.sum()", "L.sum().squeeze()", "L.squeeze()", "L.squeeze().sum()", "L.sum(axis=-1)")]
+                s.ob("C07.8", f"{ci_.name}.action_and_log_prob", okj, "the reported log-probability is that element itself, at most summed over the action components (joint density) and squeezed",
+                     locq, key="joint-logprob", detail=show(r_[1][2], maxlen=160), necessary_for="minus alpha * log pi of that action (the joint density of the sampled action vector)")
     # ---------------------------------------------------------------- C07.7 the buffer keeps the tuple (r, done, timeout, s') together
     # The target combines batch.rewards, batch.dones, batch.timeouts and batch.next_observations row by row: ReplayBuffer.add must
     # write all of them at one ring index (a flag written at another slot pairs a transition with a stale done/timeout flag).
